@@ -109,7 +109,7 @@ func (g *c11Gen) action() {
 	x := g.names[g.pick("x", len(g.names))]
 	y := g.names[g.pick("y", len(g.names))]
 	lx := g.vars[x]
-	switch g.pick("action", 14) {
+	switch g.pick("action", 15) {
 	case 0: // fresh literal
 		l, txt := g.newList(g.pick("len", 6), true)
 		g.vars[x] = l
@@ -203,6 +203,28 @@ func (g *c11Gen) action() {
 			g.vars[y] = nl
 			g.w("%s = %s;", y, call)
 		}
+	case 12: // a fresh array from a literal that is evaluated again and again (function body / parenthesised / nested)
+		switch g.pick("maker", 4) {
+		case 0:
+			g.nextID++
+			g.vars[x] = &gList{id: g.nextID, elems: []gElem{{n: 7}, {n: 8}, {n: 9}}}
+			g.w("%s = mk();", x)
+		case 1:
+			g.nextID += 3
+			g.vars[x] = &gList{id: g.nextID, elems: []gElem{{sub: &gList{id: g.nextID - 1, elems: []gElem{{n: 1}, {n: 2}}}}, {sub: &gList{id: g.nextID - 2, elems: []gElem{{n: 3}}}}}}
+			g.w("%s = mkn();", x)
+		case 2:
+			g.nextID++
+			g.vars[x] = &gList{id: g.nextID, elems: []gElem{{n: 5}, {n: 6}}}
+			g.w("%s = mkp();", x)
+		default:
+			// the same literal node evaluated three times in a loop, each result written to and kept
+			g.w("keep = [];")
+			g.w("%s (%s i = 0; i < 3; i = i + 1) { %s t = [0, 0]; t[0] = i + 1; keep = %s(keep, t); }", bn.KwFor, bn.KwVar, bn.KwVar, bn.BPush)
+			g.w("%s keep;", bn.KwPrint)
+			g.w("keep[1][1] = 50;")
+			g.w("%s keep;", bn.KwPrint)
+		}
 	case 11: // keep an array in an object property and read it back through the property
 		g.w("holder.p = %s;", x)
 		g.w("%s = holder.p;", y)
@@ -245,6 +267,10 @@ func (g *c11Gen) program(nActions int, fault int) string {
 	g.names = []string{"A", "B", "C"}
 	g.w("%s wr(p, i, v) { p[i] = v; }", bn.KwFun)
 	g.w("%s holder = {p: nil};", bn.KwVar)
+	g.w("%s keep = [];", bn.KwVar)
+	g.w("%s mk() { %s [7, 8, 9]; }", bn.KwFun, bn.KwReturn)
+	g.w("%s mkn() { %s [[1, 2], [3]]; }", bn.KwFun, bn.KwReturn)
+	g.w("%s mkp() { %s ([5, 6]); }", bn.KwFun, bn.KwReturn)
 	la, ta := g.newList(1+g.pick("len", 4), false)
 	lb, tb := g.newList(g.pick("len", 4), false)
 	g.vars["A"], g.vars["B"], g.vars["C"] = la, lb, la
